@@ -1124,7 +1124,8 @@ pub fn pick_compaction_scenario(
                     file_to_compact: Some(f),
                     level_of_file_to_compact: level,
                 });
-                node.element.set_size_compaction_metadata(None);
+                node.element
+                    .set_size_compaction_metadata(Some(crate::versioning::version::SizeCompactionMetadata { compaction_level: 0, compaction_score: 0.5 }));
             }
             None => {}
         }
